@@ -223,8 +223,10 @@ def mk_panel(seed, n_inst=10, length=16, dims=1):
     for d in range(dims):
         rows = []
         for i in range(n_inst):
-            base = np.sin(np.arange(length) / (2.0 + (i % 2))) + (i % 2) * 1.5 + d
-            rows.append(pd.Series(base + 0.2 * r.rand(length)))
+            # classes overlap on purpose: probabilities / votes then depend on the random intervals, trees and
+            # ensemble members chosen, so a generator that is not derived from random_state shows in the results
+            base = np.sin(np.arange(length) / (2.0 + (i % 2))) + (i % 2) * 0.4 + d
+            rows.append(pd.Series(base + 1.2 * r.rand(length)))
         cols["dim_%d" % d] = rows
     X = pd.DataFrame(cols)
     y = np.array([str(i % 2) for i in range(n_inst)])
@@ -352,7 +354,7 @@ def table():
                 kw["forecaster"] = NaiveForecaster(strategy="mean")
             return Imputer(**kw)
         T["st:imputer_" + meth] = dict(fam="st", conts=["Series", "DataFrame"], nan=True, make=mk,
-                                       cls=("Imputer:random" if meth == "random" else "Imputer"))
+                                       cls=("Imputer:" + meth if meth in ("random", "drift", "forecaster") else "Imputer"))
 
     # ---------------------------------------------------------------- panel transformers
     from sktime.transformations.panel.compose import ColumnConcatenator, SeriesToSeriesRowTransformer, SeriesToPrimitivesRowTransformer
@@ -534,8 +536,14 @@ def run_seq(c):
             try:
                 insts[inst] = pickle.loads(pickle.dumps(o))
             except Exception as ex:
-                insts[inst] = "E.pickle." + type(ex).__name__
-                obs["errors"].append("pickle: %s: %s" % (type(ex).__name__, str(ex)[:160]))
+                msg = "%s: %s" % (type(ex).__name__, str(ex)[:300])
+                if "skcompat" in msg or "_Lenient" in msg or "_NpProxy" in msg:
+                    # the harness's own emulation layer is what cannot be pickled: not the estimator's doing
+                    insts[inst] = "SKIP"
+                    obs["skipped"].append("pickle-blocked-by-compat-shim")
+                else:
+                    insts[inst] = "E.pickle." + type(ex).__name__
+                    obs["errors"].append("pickle: " + msg)
             return insts[inst]
         est = _mk_est(c, inst)
         a = fit_args()
@@ -559,11 +567,15 @@ def run_seq(c):
         _OBS[_ck(c)] = obs
         return obs
     firsts = {}          # (method, argid) -> (result object | error token, digest, chg)
+    pending = []         # pairs only ever called on a copy that could not be built
     for inst, method, argid in c["calls"]:
         est = fitted(inst)
         key = (method, argid)
+        if isinstance(est, str) and est == "SKIP":
+            continue
         if isinstance(est, str):
             obs["calls"].append([inst, method, argid, "T", est])
+            pending.append(key)
             continue
         if not hasattr(est, method):
             obs["calls"].append([inst, method, argid, "T", "E.nomethod"])
@@ -597,6 +609,8 @@ def run_seq(c):
                 tol = 1e-9       # rounding-level differences (BLAS threading) are not what the property is about
                 dig = f0[1] if same_result(f0[0], res, tol) else result_digest(res)
         obs["calls"].append([inst, method, argid, flag, dig])
+    for key in pending:
+        firsts.setdefault(key, ("E.nocopy", "E.nocopy", False))
     obs["first"] = {"%s/%s" % k: [v[1], bool(v[2])] for k, v in firsts.items()}
     _OBS[_ck(c)] = obs
     return obs
